@@ -113,6 +113,10 @@ pub enum Op {
     Perft,
     /// the repetition table filled by the caller (not by the search): its traps are C07's
     History,
+    /// parsing a damaged record / building from a damaged call sequence: what the parser and
+    /// the builder owe such input is C06's (never panic, return only valid boards)
+    ParseDamaged,
+    BuildDamaged,
 }
 
 static CURRENT_OP: AtomicU32 = AtomicU32::new(0);
@@ -136,6 +140,8 @@ pub fn current_op() -> &'static str {
         11 => "status",
         12 => "perft",
         13 => "history",
+        14 => "parse-damaged",
+        15 => "build-damaged",
         _ => "harness",
     }
 }
